@@ -47,6 +47,9 @@ def asked_times(model, engine, beats):
         ts.setdefault(float(x + (y - x) / 3), "between")
         ts.setdefault(float(x + (y - x) * 4 / 5), "between")
     ts.setdefault(float(ev[0] - Fraction(3, 8)), "between")
+    # before beat 0, not on a tick and not on a rounding tie (rounding of negative beats)
+    for d in (Fraction(1, 7), Fraction(5, 9), Fraction(29, 13)):
+        ts.setdefault(float(ev[0] - d), "between")
     ts.setdefault(float(ev[-1] + Fraction(5, 8)), "between")
     return [(t, k, origin.get(t)) for t, k in sorted(ts.items())]
 
